@@ -44,6 +44,37 @@ def checkAndAdjustP (defaults bs : List UInt64) : Outcome (List UInt64) :=
   (Outcome.unwrap bs.getLast?).bind fun tail =>
   .ok (if f64IsPosInf tail then bs.dropLast else bs)
 
+/-! ### `linear_buckets` / `exponential_buckets` with their partial operations
+
+After the argument checks both functions only allocate a `Vec<f64>` of `count` elements
+(`(0..count).map(..).collect()` over a `TrustedLen` iterator, resp. `Vec::with_capacity(count)`) and
+fill it: no indexing, no `unwrap`, no integer subtraction; `step as f64` and the float arithmetic are
+total. The single partial operation is the allocation request itself: `Vec::with_capacity` panics
+with "capacity overflow" when `count * size_of::<f64>()` exceeds `isize::MAX` bytes (an allocation
+that fits but cannot be served aborts the process; that is not a panic and not modelled). The
+`push`es stay within the reserved capacity and cannot panic. -/
+
+/-- `isize::MAX` on the 64-bit targets the crate is built for -/
+def isizeMax : Nat := 2 ^ 63 - 1
+
+/-- `Vec::<T>::with_capacity(n)` with `size_of::<T>() = elemSize`: "capacity overflow" panic -/
+def vecWithCapacityP (elemSize n : Nat) : Outcome Unit :=
+  if elemSize * n ≤ isizeMax then .ok () else .panic
+
+/-- `linear_buckets`, panic-explicit -/
+def linearBucketsP (start width : UInt64) (count : Nat) : Outcome (List UInt64) :=
+  if count < 1 then .err
+  else if f64Le width f64Zero then .err
+  else (vecWithCapacityP 8 count).bind fun _ =>
+    .ok ((List.range count).map fun step => f64Add start (f64Mul width (f64OfNat step)))
+
+/-- `exponential_buckets`, panic-explicit -/
+def exponentialBucketsP (start factor : UInt64) (count : Nat) : Outcome (List UInt64) :=
+  if count < 1 then .err
+  else if f64Le start f64Zero then .err
+  else if f64Le factor f64One then .err
+  else (vecWithCapacityP 8 count).bind fun _ => .ok (expLoop factor count start)
+
 /-! ### `make_label_pairs` -/
 
 def pairLoopP (vals : List Str) : List Str → Nat → Outcome (List LabelPair)
